@@ -833,6 +833,14 @@ func (e *SpecEnv) binary(n *ast.BinaryExpr) Val {
 		if b, ok := bv.(SliceV); ok {
 			return c.strCompare(n.Op, a, b, e.st)
 		}
+	case IfaceV:
+		if b, ok := bv.(IfaceV); ok {
+			t := and("(= "+a.Tag+" "+b.Tag+")", "(= "+a.Ref+" "+b.Ref+")")
+			if n.Op == token.NEQ {
+				t = not(t)
+			}
+			return Scalar{t, boolSort}
+		}
 	}
 	la, aLit := av.(specLit)
 	lb, bLit := bv.(specLit)
